@@ -3,6 +3,8 @@ import math
 import os
 import random
 import struct
+from decimal import Decimal
+from fractions import Fraction
 
 from ..framework import Prop, mk, guarded, ensure_repo_on_path, exc_family
 
@@ -39,7 +41,7 @@ class C20(Prop):
     table_groups = ['Bloom']
     theorems = ['BtcVerif.C20.' + t for t in (
         'murmur_eq_spec', 'bloom_hash_eq_schedule', 'bits_eq_schedule', 'contains_eq_spec', 'no_false_negative',
-        'run_ok', 'caps', 'ser_roundtrip', 'reload_preserves_answers', 'empty_matches_all', 'empty_arrives')]
+        'run_ok', 'caps', 'created_le_requested', 'create_ok', 'bits_after_history', 'ser_roundtrip', 'reload_preserves_answers', 'empty_matches_all', 'empty_arrives')]
     anchors = [('bitcoin/bloom.py', '_ROTL32'), ('bitcoin/bloom.py', 'MurmurHash3'),
                ('bitcoin/bloom.py', 'CBloomFilter.__init__'), ('bitcoin/bloom.py', 'CBloomFilter.bloom_hash'),
                ('bitcoin/bloom.py', 'CBloomFilter.insert'), ('bitcoin/bloom.py', 'CBloomFilter.contains'),
@@ -187,6 +189,13 @@ class C20(Prop):
             for n in sorted(nset):
                 if mine(1):
                     yield mk('c20.ctor', n, repr(rate), tag='ctor')
+
+        # outside the quantifier, but outcomes of the model: rates >= 1 (negative bit count), rate <= 0 (math.log),
+        # nElements = 0 (division by zero)
+        for (n, rate) in ((1000, 2.0), (1, 1.5), (5, 1.0000001), (3, 10.0), (7, 0.0), (7, -0.5), (0, 0.01), (0, 0.5),
+                          (10 ** 6, 1.00001), (1, 300.0), (2, 1e300)):
+            if mine(1):
+                yield mk('c20.ctor', n, repr(rate), tag='ctor-outside')
 
         # (c) histories on constructed filters -----------------------------------------------------
         shapes = [(1, 0.02), (1, 0.01), (1, 0.3), (2, 0.01), (3, 0.01), (3, 0.000001), (5, 0.1), (10, 0.01),
@@ -337,23 +346,47 @@ class C20(Prop):
             return self._run_hist(a[0], a[1])
         raise ValueError(op)
 
+    @staticmethod
+    def _exact_xy(n, rate, size):
+        """The sizing formula of BIP37 evaluated with 60-digit decimal arithmetic, independently of the float
+        expression (and of the float constants) in the constructor:
+            x = -n * ln(p) / ln(2)^2      y = size * 8 / n * ln(2)
+        Returns specs for the driver: 'r:<num>:<den>' or 'e:<family>' where the Python expression raises."""
+        import decimal
+        with decimal.localcontext() as ctx:
+            ctx.prec = 60
+            ln2 = Decimal(2).ln()
+            if rate <= 0:
+                xs = 'e:valueerr'                      # math.log: math domain error
+            else:
+                X = Fraction(-n * Decimal(rate).ln() / (ln2 * ln2)) if rate != 1.0 else Fraction(0)
+                xs = 'r:%d:%d' % (X.numerator, X.denominator)
+            if n == 0:
+                ys = 'e:py:ZeroDivisionError'
+            else:
+                Y = Fraction(Decimal(size) * 8 / Decimal(n) * ln2)
+                ys = 'r:%d:%d' % (Y.numerator, Y.denominator)
+        return xs, ys
+
     def model_line(self, c):
         if c['op'] == 'c20.ctor':
             n, rate = int(c['args'][0]), float(c['args'][1])
-            x = x_of(n, rate)
-            xs = int(min(x, CAP_BYTES * 8) / 8)          # only used to form y
+            size = 0
             try:
-                xs = len(self.B.CBloomFilter(n, rate, 0, 0).vData)
+                size = len(self.B.CBloomFilter(n, rate, 0, 0).vData)
             except Exception:  # noqa: BLE001
-                pass
-            y = xs * 8 / n * LN2
-            xn, xd = (x + 0.0).as_integer_ratio()
-            yn, yd = (y + 0.0).as_integer_ratio()
-            return '\t'.join(['c20.ctor', str(xn), str(xd), str(yn), str(yd)])
+                try:
+                    size = max(0, int(min(x_of(n, rate), CAP_BYTES * 8) / 8))
+                except Exception:  # noqa: BLE001
+                    pass
+            xs, ys = self._exact_xy(n, rate, size)
+            return '\t'.join(['c20.ctor', xs, ys])
         return c.line
 
     def agree(self, c, io, mo):
         if c['op'] != 'c20.ctor':
+            return io == mo
+        if io.startswith('err:') or mo.startswith('err:'):
             return io == mo
         try:
             isz, ik = (int(v) for v in io.split())
@@ -363,8 +396,8 @@ class C20(Prop):
         # what the property claims: the protocol maxima
         if isz > CAP_BYTES or ik > CAP_FUNCS or msz > CAP_BYTES or mk_ > CAP_FUNCS:
             return False
-        # the exact float result is not claimed: sizes are compared only where no re-association of the float
-        # expression could move the value across an integer
+        # the exact float result is not claimed: sizes are compared with the exactly evaluated formula only where
+        # no rounding or re-association of the float expression could move the value across an integer
         n, rate = int(c['args'][0]), float(c['args'][1])
         x = x_of(n, rate)
 
